@@ -238,8 +238,16 @@ package otto
 //@   ensures x.kind == valueObject && y.kind == valueObject ==> (result <==> x.value.(*object) == y.value.(*object))
 
 // ES5 9.2 ToBoolean.
+// ToString: number formatting lives in strconv (C06); only its frame is used here.
+//@ func (Value).string
+//@   trusted
+//@   pure_if v.kind != valueObject
+//@   throws v.kind == valueObject
+
 //@ func (Value).bool
 //@   props C05
+//@   nothrow
+//@   pure
 //@   requires jsValue(v)
 //@   ensures v.kind == valueUndefined || v.kind == valueNull ==> !result
 //@   ensures v.kind == valueBoolean ==> result == v.value.(bool)
@@ -606,3 +614,106 @@ package otto
 //@   inline
 //@ func (*object).writeProperty
 //@   inline
+
+// ---------------------------------------------------------------------------
+// dispatch tables of the object classes (discharged against the package initialiser)
+// ---------------------------------------------------------------------------
+
+//@ table[C07] classObject.getOwnProperty = objectGetOwnProperty
+//@ table[C07] classObject.getProperty = objectGetProperty
+//@ table[C07] classObject.get = objectGet
+//@ table[C07] classObject.canPut = objectCanPut
+//@ table[C07] classObject.put = objectPut
+//@ table[C07] classObject.hasProperty = objectHasProperty
+//@ table[C07] classObject.hasOwnProperty = objectHasOwnProperty
+//@ table[C07] classObject.defineOwnProperty = objectDefineOwnProperty
+//@ table[C07] classObject.delete = objectDelete
+//@ table[C07] classObject.enumerate = objectEnumerate
+//@ table[C07,C17] classObject.clone = objectClone
+//@ table[C08] classArray.getOwnProperty = objectGetOwnProperty
+//@ table[C08] classArray.defineOwnProperty = arrayDefineOwnProperty
+//@ table[C08] classArray.delete = objectDelete
+//@ table[C08] classArray.put = objectPut
+//@ table[C08] classArray.canPut = objectCanPut
+
+// Dispatchers: for ordinary objects (objectClass == classObject) the slot is the
+// function named by the table obligations above, whose contract is repeated here.
+// TRUSTED: the link table slot -> contract is by these clauses, not by the engine.
+//@ func (*object).getOwnProperty
+//@   trusted
+//@   requires o != nil
+//@   pure_if o.objectClass == classObject
+//@   throws o.objectClass != classObject
+//@   ensures o.objectClass == classObject ==> ((result == nil) <==> !has(o.property, name))
+//@   ensures o.objectClass == classObject && result != nil ==> *result == o.property[name]
+//@ func (*object).getProperty
+//@   trusted
+//@   requires o != nil
+//@   pure_if o.objectClass == classObject
+//@   throws o.objectClass != classObject
+//@   ensures o.objectClass == classObject && has(o.property, name) ==> result != nil && *result == o.property[name]
+//@   ensures o.objectClass == classObject && !has(o.property, name) && o.prototype == nil ==> result == nil
+//@ func (*object).defineOwnProperty
+//@   trusted
+//@   requires o != nil
+
+// 8.12.1 [[GetOwnProperty]]: absent -> undefined (nil); present -> a copy of the record
+//@ func objectGetOwnProperty
+//@   props C07
+//@   requires obj != nil
+//@   ensures (result == nil) <==> !has(obj.property, name)
+//@   ensures result != nil ==> *result == obj.property[name]
+//@   pure
+//@   nothrow
+
+// 8.12.2 [[GetProperty]]: own property first, then the prototype's [[GetProperty]]
+//@ func objectGetProperty
+//@   props C07
+//@   requires obj != nil && obj.objectClass == classObject
+//@   ensures old(has(obj.property, name)) ==> result != nil && *result == old(obj.property[name])
+//@   ensures old(!has(obj.property, name) && obj.prototype == nil) ==> result == nil
+//@   calls (*object).getProperty(obj.prototype, name) as inherited when !has(obj.property, name) && obj.prototype != nil
+//@   ensures old(!has(obj.property, name) && obj.prototype != nil) ==> result == inherited
+//@   nocall (*object).getProperty(obj.prototype, name) when has(obj.property, name)
+
+// 8.12.4 [[CanPut]] with the details objectPut needs
+//@ func objectCanPutDetails
+//@   props C07
+//@   requires obj != nil && obj.objectClass == classObject
+//@   requires has(obj.property, name) ==> wfStored(obj.property[name])
+//@   ensures old(has(obj.property, name) && is(obj.property[name].value, Value)) ==> (canPut <==> old(dig(obj.property[name].mode, 2) == 1)) && setter == nil && prop != nil && *prop == old(obj.property[name])
+//@   ensures old(has(obj.property, name) && is(obj.property[name].value, propertyGetSet)) ==> setter == old(obj.property[name].value.(propertyGetSet)[1]) && (canPut <==> setter != nil)
+//@   ensures old(!has(obj.property, name) && obj.prototype == nil) ==> (canPut <==> old(obj.extensible)) && prop == nil && setter == nil
+//@   calls (*object).getProperty(obj.prototype, name) as inherited when !has(obj.property, name) && obj.prototype != nil
+//@   nocall (*object).getProperty(obj.prototype, name) when has(obj.property, name)
+//@   ensures old(!has(obj.property, name) && obj.prototype != nil) && inherited == nil ==> (canPut <==> obj.extensible) && prop == nil && setter == nil
+//@   ensures old(!has(obj.property, name) && obj.prototype != nil) && inherited != nil && is((*inherited).value, Value) ==> (canPut <==> obj.extensible && dig((*inherited).mode, 2) == 1) && prop == nil && setter == nil
+//@   ensures old(!has(obj.property, name) && obj.prototype != nil) && inherited != nil && is((*inherited).value, propertyGetSet) ==> setter == (*inherited).value.(propertyGetSet)[1] && (canPut <==> setter != nil)
+
+// 8.12.7 [[Delete]]
+//@ func objectDelete
+//@   props C07
+//@   requires obj != nil && obj.objectClass == classObject && obj.runtime != nil
+//@   ensures !old(has(obj.property, name)) ==> result
+//@   ensures old(has(obj.property, name)) && dig(old(obj.property[name]).mode, 0) == 1 ==> result
+//@   ensures old(has(obj.property, name)) && dig(old(obj.property[name]).mode, 0) != 1 ==> !result
+//@   throws throw && has(obj.property, name) && dig(obj.property[name].mode, 0) != 1
+//@   calls (*object).deleteProperty(obj, name) when has(obj.property, name) && dig(obj.property[name].mode, 0) == 1
+//@   nocall (*object).deleteProperty(obj, name) when !has(obj.property, name) || dig(obj.property[name].mode, 0) != 1
+
+//@ func (*runtime).typeErrorResult
+//@   props C19
+//@   requires rt != nil
+//@   ensures !result && !throw
+//@   throws throw
+//@   modifies exception.value
+
+// removal from the property table: the entry is gone, every other entry is untouched
+//@ func (*object).deleteProperty
+//@   props C07
+//@   requires o != nil
+//@   ensures !has(o.property, name)
+//@   ensures forall k string :: k != name ==> (has(o.property, k) <==> old(has(o.property, k))) && o.property[k] == old(o.property[k])
+//@   ensures o.property == old(o.property)
+//@   modifies object.propertyOrder, elems(string), map(string;property)
+//@   nothrow
